@@ -1,5 +1,5 @@
 """C15 — spatial transforms obey their algebra and extents are tight."""
-import json, math
+import json, warnings, math
 import numpy as np
 import numpy.ma as ma
 from .. import posecase as pc
@@ -231,6 +231,29 @@ def run(ctx):
             names_ok = all(c.points == ["TOP_LEFT", "BOTTOM_RIGHT"] for c in bb.header.components) and [c.name for c in bb.header.components] == [pc.unhx(c["name"]) for c in case["header"]["components"]]
             if not okb or not names_ok:
                 bad("a bounding box is not the smallest axis-aligned box of its component's observed points (missing when there is none)", {}, {"dims": D})
+        # ---- bbox of the same pose with binary64 coordinates that binary32 cannot represent (thirds: what interpolate / normalize / a binary64 matrix leave behind):
+        # the box is exactly the extreme coordinates, not their nearest binary32 values
+        if bb is not None and src[0].size:
+            try:
+                from pose_format import Pose
+                d64 = ma.masked_array(src[0].astype(np.float64) / 3.0 + 0.1, mask=src[1].copy())
+                p64 = build(case)
+                p64 = Pose(p64.header, NumPyPoseBody(25.0, d64, np.asarray(p64.body.confidence).copy()))
+                b64 = arrays(p64.bbox())
+                off = 0; ok64 = True
+                for ci, n in enumerate(sizes):
+                    seg = np.where(src[1][:, :, off:off + n], np.nan, np.asarray(d64.data)[:, :, off:off + n])
+                    with np.errstate(all="ignore"), warnings.catch_warnings():
+                        warnings.simplefilter("ignore")
+                        lo, hi = np.nanmin(seg, axis=2), np.nanmax(seg, axis=2)
+                    none = np.isnan(lo)
+                    if not (np.array_equal(np.where(none, 0, b64[0][:, :, 2 * ci]), np.where(none, 0, lo)) and np.array_equal(np.where(none, 0, b64[0][:, :, 2 * ci + 1]), np.where(none, 0, hi))):
+                        ok64 = False
+                    off += n
+                if not ok64:
+                    bad("a bounding box is not the smallest axis-aligned box of its component's observed points (missing when there is none)", {"body": "binary64 coordinates (thirds)"}, {"dims": D, "what": "binary64"})
+            except Exception as e:
+                bad("bbox raises", {"error": type(e).__name__ + ": " + str(e)[:100], "body": "binary64"}, {"dims": D, "what": "binary64"})
         # ---- model
         ops = [{"k": "flip", "axis": rng.randrange(D)}, {"k": "bbox", "sizes": sizes}]
         if observed:
